@@ -358,6 +358,13 @@ def check_components(out, A):
             ok2, back = out.call("stack_quat_channels(split_quat_channels(A))", L.qslst.stack_quat_channels, *ch)
             if ok2:
                 out.equal_bits("stack_quat_channels(split_quat_channels(A)):returns A bit-for-bit", np.asarray(back), A)
+            # the planes of one split merged in another order / replicated: the merge answers for the planes it is given
+            for perm in ((0, 3, 2, 1), (1, 1, 1, 1), (3, 0, 1, 2)):
+                ok3, bp = out.call("stack_quat_channels(permuted planes of one split)", L.qslst.stack_quat_channels,
+                                   *[ch[c] for c in perm])
+                if ok3:
+                    out.equal_bits("stack_quat_channels(permuted planes of one split):component c is the plane passed as c",
+                                   np.asarray(bp), A[..., list(perm)], f"order {perm}")
     ok, solver = out.call("QGMRESSolver()", L.solver.QGMRESSolver)
     if not ok:
         return
@@ -432,6 +439,12 @@ def real_cases(draw, tier):
     A, pa = draw(qinput(m, k))
     B, pb = draw(qinput(k, n))
     A2, pa2 = draw(qinput(m, k))
+    if m == k and draw(st.integers(0, 3)) == 0:
+        # exactly Hermitian (or skew-Hermitian) operand: a value-dependent structural class that basis units and generic
+        # matrices never enter
+        sgn = draw(st.sampled_from([1.0, 1.0, -1.0]))
+        A = A + sgn * ref.conjT(A)
+        pa = pa + ("+hermitian" if sgn > 0 else "+skew_hermitian")
     a = draw(gen.reals())
     b = draw(gen.reals())
     return {"A": A, "B": B, "A2": A2, "a": a, "b": b, "pa": pa, "pb": pb, "view": draw(st.booleans()),
